@@ -848,15 +848,16 @@ func runC04(c *Ctx) {
 						}
 					}
 				}
+				fromArm := reachWithFlags(body)
 				// The arm must end the call: a fall-through into the registration is
 				// the same as no test at all, so reachability, not dominance, decides.
-				good := len(sends) == 1 && resultHasOnlyErr(sends[0].X) && chanParamOf(put) != nil && sends[0].Chan == ssa.Value(chanParamOf(put)) && !blockReaches(body, upd.Block())
+				good := len(sends) == 1 && resultHasOnlyErr(sends[0].X) && chanParamOf(put) != nil && sends[0].Chan == ssa.Value(chanParamOf(put)) && !fromArm[upd.Block()]
 				c.check(good, "R3", "closed arm notifies once and refuses", p.Pos(body.Instrs[0].Pos()), "one error result to the caller's channel, no registration", "after close, putChannel does not answer the caller exactly once with an error (or still registers the request)")
 				// returns false there
 				retFalse := true
 				nret := 0
 				for _, b := range put.Blocks {
-					if b != body && !blockReaches(body, b) {
+					if !fromArm[b] {
 						continue
 					}
 					for _, in := range b.Instrs {
@@ -869,8 +870,23 @@ func runC04(c *Ctx) {
 						if phi, ok := r.Results[0].(*ssa.Phi); ok && phi.Block() == b {
 							vals = nil
 							for i, pred := range b.Preds {
-								if pred == body || blockReaches(body, pred) {
+								if fromArm[pred] {
 									vals = append(vals, phi.Edges[i])
+								}
+							}
+						}
+						// a named result kept in memory (the function defers): what the arm can leave in it is what a
+						// store reachable from the arm, or made before the arm was entered, puts there — none: false
+						if u, ok := r.Results[0].(*ssa.UnOp); ok && u.Op == token.MUL {
+							if a, ok := u.X.(*ssa.Alloc); ok {
+								vals = nil
+								for _, st := range storesTo(put, a) {
+									if ld, ok := st.Val.(*ssa.UnOp); ok && ld.Op == token.MUL && ld.X == ssa.Value(a) {
+										continue // `return ok` of a named result stores it to itself
+									}
+									if st.Parent() != put || fromArm[st.Block()] || st.Block().Dominates(body) {
+										vals = append(vals, st.Val)
+									}
 								}
 							}
 						}
@@ -884,7 +900,27 @@ func runC04(c *Ctx) {
 					}
 				}
 				if nret == 0 {
-					retFalse = false
+					// the arm sits in a closure that reports through a captured variable: nothing reachable from the
+					// arm sets that variable to true
+					sawRet := false
+					for _, b := range put.Blocks {
+						if !fromArm[b] {
+							continue
+						}
+						for _, in := range b.Instrs {
+							if _, ok := in.(*ssa.Return); ok {
+								sawRet = true
+							}
+							if st, ok := in.(*ssa.Store); ok {
+								if k, ok := st.Val.(*ssa.Const); ok && k.Value != nil && k.Value.String() == "true" {
+									retFalse = false
+								}
+							}
+						}
+					}
+					if !sawRet {
+						retFalse = false
+					}
 				}
 				c.check(retFalse, "R3", "closed arm returns false", p.Pos(body.Instrs[0].Pos()), "dispatchRequest then skips the write", "putChannel reports success after close")
 			}
